@@ -47,7 +47,7 @@ def _types() -> dict[str, Any]:
     from hv.gen import c20types
 
     g = globals()
-    g["Holder"], g["SeqHolder"] = c20types.Holder, c20types.SeqHolder
+    g["Holder"], g["SeqHolder"], g["BareHolder"] = c20types.Holder, c20types.SeqHolder, c20types.BareHolder
     return g
 
 
@@ -59,7 +59,7 @@ class AlwaysEq:
         return 7
 
 
-WRAPPERS = ("list", "tuple", "dict", "state", "stateseq")
+WRAPPERS = ("list", "tuple", "dict", "state", "stateseq", "barestate")
 
 
 def wrap(kind: str, inner: Any, sib: Any = None) -> Any:
@@ -72,6 +72,8 @@ def wrap(kind: str, inner: Any, sib: Any = None) -> Any:
         return {"k": inner, "s": sib} if sib is not None else {"k": inner}
     if kind == "state":
         return g["Holder"](value=inner, tag=1)
+    if kind == "barestate":
+        return g["BareHolder"](value=inner, tag=2)
     return g["SeqHolder"](items=[inner] if sib is None else [sib, inner])
 
 
@@ -88,7 +90,7 @@ def walk(a: Any, b: Any, path: str, out: list[tuple[str, Any, Any]]) -> None:
     elif isinstance(a, dict) and isinstance(b, dict) and a.keys() == b.keys():
         for k in a:
             walk(a[k], b[k], f"{path}[{k!r}]", out)
-    elif isinstance(a, (g["Holder"], g["SeqHolder"])) and type(a) is type(b):
+    elif isinstance(a, (g["Holder"], g["SeqHolder"], g["BareHolder"])) and type(a) is type(b):
         for k in type(a).__ATTRIBUTES__:
             walk(getattr(a, k, None), getattr(b, k, None), f"{path}.{k}", out)
     else:
@@ -349,7 +351,7 @@ def run(R: Recorder, tier: str, seed: int, shard: int, nshards: int) -> None:
     if shard == 0:
         scalar_laws(R)
         hash_containers(R)
-    R.flags["exhaustive_core"] = "all wrapper chains of depth 0..4 over 5 wrapper kinds x 8 operations"
+    R.flags["exhaustive_core"] = "all wrapper chains of depth 0..4 over 6 wrapper kinds x 8 operations"
     n = 0
     for depth in range(0, 5):
         for chain in itertools.product(WRAPPERS, repeat=depth):
